@@ -144,7 +144,7 @@ def rename(ds, pairs):
 
 
 def sub(ds, pairs):
-    return clause("sub", ds, [A.BinOp(left=comp(c), op="=", right=const(v), **P) for c, v in pairs])
+    return clause("sub", ds, [A.BinOp(left=var(c), op="=", right=const(v), **P) for c, v in pairs])
 
 
 def having(cond, text="having"):
@@ -161,14 +161,26 @@ def agg(op, operand=None, grouping_op=None, grouping=None, having_clause=None):
 
 
 def aggr(ds, items, grouping_op=None, grouping=None, having_clause=None):
-    """items: list of (role|None, name, aggop, component)"""
+    """items: list of (role|None, name, aggop, component); role in measure/attribute/identifier/viral attribute"""
+    from vtlengine.Model import Role
+    rmap = {"measure": Role.MEASURE, "attribute": Role.ATTRIBUTE, "identifier": Role.IDENTIFIER,
+            "viral attribute": Role.VIRAL_ATTRIBUTE, None: None}
     ch = []
     for role, name, aop, c in items:
         left = comp(name)
-        left.role = role
-        a = A.Assignment(left=left, op=":=", right=agg(aop, var(c) if c else None, grouping_op, grouping, having_clause), **P)
-        ch.append(A.UnaryOp(op=role, operand=a, **P) if role else a)
+        left.role = rmap[role]
+        ch.append(A.Assignment(left=left, op=":=", right=agg(aop, var(c) if c else None, grouping_op, grouping, having_clause), **P))
     return clause("aggr", ds, ch)
+
+
+def jbody(j, *clause_fns):
+    """join with a body: clauses wrap the JoinOp (isLast False), the outermost clause carries isLast=True"""
+    j.isLast = False
+    node = j
+    for fn in clause_fns:
+        node = fn(node)
+    node.isLast = True
+    return node
 
 
 def window(type_="data", start=-1, start_mode="preceding", stop=0, stop_mode="current"):
